@@ -574,10 +574,7 @@ impl Store {
         if filter.num_ids() > 0 {
             // Fetch by id
             for id in filter.ids() {
-                // Stop if limited
-                if output.len() >= filter.limit() as usize {
-                    break;
-                }
+                // (the limit is applied below, after sorting, so that the newest are kept)
                 if let Some(event) = self.get_event_by_id(id)? {
                     // and check each against the rest of the filter
                     if filter.event_matches(event)? && screen(event) {
